@@ -60,6 +60,7 @@ import PS.Proofs.Enum.HSPrologueTotal
 import PS.Proofs.Enum.GInst
 import PS.Proofs.Enum.USoundRun
 import PS.Proofs.Enum.UBridge
+import PS.Proofs.Enum.UUnamb
 namespace PS.C02HS
 open PS PS.G
 
@@ -567,6 +568,55 @@ example : ∀ s' out b, UHS.take Eu 60 30 (UHS.St.empty Gu) [] = some (s', out, 
 example : ∀ s' out b, UHS.take Eub 60 30 (UHS.St.empty Gu) [] = some (s', out, b) →
     ∀ p ∈ out, PS.U.genU (Gu.toUCFG s0) p = true :=
   fun s' out b h => C02_HS_U_sound Eub Eub_hyp s0 60 30 s' out b h
+
+/-- NO DUPLICATES, the inner step: `UHS.NInv E s` — for every non-terminal the programs of `heaps[nt]`
+    are pairwise distinct and belong to `hash_table_program[nt]`; every value of `succ[nt]` belongs to
+    `hash_table_program[nt]` and is not in `heaps[nt]` any more; `succ[nt]` is injective.  `query` keeps
+    it, only adds entries to the `succ` tables (`UHS.Stable`) and returns the entry `succ[nt][program]`
+    of the new state.  Any grammar, priority type, threshold; with a non-empty `deleted` set under
+    `UHS.NoReent` (carried by `NInv.del_ok`). -/
+theorem C02_HS_U_query_nodup (E : UHS.Env U π) (hk : E.kway = true) (n : Nat) (s s' : UHS.St U π) (nt : UHS.UNT U)
+    (p r : Option Prog) (hs : NInv E s) (h : UHS.query E n s nt p = some (s', r)) :
+    NInv E s' ∧ Stable s s' ∧ ∀ q, r = some q → AList.lookup p (s'.succOf nt) = some q :=
+  big_nodup E hk (big_of_query E h) hs trivial
+
+/-- **NO DUPLICATES** (every prefix, every fuel): the sequence yielded by heap search / bucket search
+    on an UNAMBIGUOUS grammar has no repeated program.  `hunamb`: the specification `U.unambiguousOn`
+    (at most one derivation from at most one start symbol) for every program — only the consequence
+    "the languages of two start symbols are disjoint" is used; `hstarts`: `G.starts` is a set;
+    `hf`: no filter (with a filter: `C02_HS_U_filter_nodup`).  Any grammar shape (recursive too),
+    any priority type, threshold.
+    Proof: the programs taken from one start symbol are the chain of `succ[start]` from the sentinel,
+    which cannot repeat because `succ[start]` is injective (`UHS.chainR_nodup`); the start heap holds at
+    most one entry per start symbol (`UHS.GInv`). -/
+theorem C02_HS_U_nodup (E : UHS.Env U π) (H : GHyp E) (d : UHS.UNT U)
+    (hunamb : ∀ p, PS.U.unambiguousOn (E.G.toUCFG d) p = true) (hstarts : (E.G.starts.map (·.1)).Nodup)
+    (hf : ∀ p, E.filter p = true) (fuel k : Nat) (s' : UHS.St U π) (out : List Prog) (b : Bool)
+    (h : UHS.take E fuel k (UHS.St.empty E.G) [] = some (s', out, b)) : out.Nodup :=
+  (take_nodup E ⟨H, sdisj_of_unambiguous E d hunamb, hstarts, Or.inl hf⟩ fuel k s' out b h).1
+
+/-- the same from the decidable criterion `UHS.BUDet` (a symbol and the non-terminals of its arguments
+    determine the non-terminal: the shape produced by `UCFG.from_DFTA`), which implies unambiguity -/
+theorem C02_HS_U_nodup_det (E : UHS.Env U π) (H : GHyp E) (hdet : BUDet E) (hstarts : (E.G.starts.map (·.1)).Nodup)
+    (hf : ∀ p, E.filter p = true) (fuel k : Nat) (s' : UHS.St U π) (out : List Prog) (b : Bool)
+    (h : UHS.take E fuel k (UHS.St.empty E.G) [] = some (s', out, b)) : out.Nodup :=
+  (take_nodup E ⟨H, sdisj_of_budet E hdet, hstarts, Or.inl hf⟩ fuel k s' out b h).1
+
+/-- with a filter installed, when `__add_successors__(p, S)` does not re-enter `query(S, ·)`
+    (`UHS.NoReent`; true on acyclic grammars): no duplicates, and only accepted programs are yielded -/
+theorem C02_HS_U_filter_nodup (E : UHS.Env U π) (H : GHyp E) (hdisj : SDisj E)
+    (hstarts : (E.G.starts.map (·.1)).Nodup) (hre : NoReent E) (fuel k : Nat) (s' : UHS.St U π) (out : List Prog)
+    (b : Bool) (h : UHS.take E fuel k (UHS.St.empty E.G) [] = some (s', out, b)) :
+    out.Nodup ∧ ∀ p ∈ out, E.filter p = true :=
+  take_nodup E ⟨H, hdisj, hstarts, Or.inr hre⟩ fuel k s' out b h
+
+theorem Eu_det : BUDet Eu := budet_of_check Eu (by decide)
+theorem Eub_det : BUDet Eub := budet_of_check Eub (by decide)
+
+example : ∀ s' out b, UHS.take Eu 60 30 (UHS.St.empty Gu) [] = some (s', out, b) → out.Nodup :=
+  fun s' out b h => C02_HS_U_nodup_det Eu Eu_hyp Eu_det (by decide) (fun _ => rfl) 60 30 s' out b h
+example : ∀ s' out b, UHS.take Eub 60 30 (UHS.St.empty Gu) [] = some (s', out, b) → out.Nodup :=
+  fun s' out b h => C02_HS_U_nodup_det Eub Eub_hyp Eub_det (by decide) (fun _ => rfl) 60 30 s' out b h
 end UMachine
 
 end PS.C02HS
